@@ -303,12 +303,12 @@ def execute(desc):
       if retained:
         sk = _sortkey(item)
         lo = _sortkey(retained[-1])
-        hi = _sortkey(retained[0])
+        top = _sortkey(retained[0])
         if sk < lo:
           rel = 'below'
         elif not lo < sk:
           rel = 'tie_low'
-        elif hi < sk:
+        elif top < sk:
           rel = 'above'
         else:
           rel = 'inside'
